@@ -66,6 +66,8 @@ type ArchiveDecoder struct {
 	// root is set once the first entry (the only one without a filename) was decoded,
 	// rootIsDir if that entry was a directory
 	root, rootIsDir bool
+	// depth is the number of directories entered and not yet left (by a goodbye)
+	depth int
 }
 
 // NewArchiveDecoder initializes a decoder for a catar archive.
@@ -156,7 +158,16 @@ loop:
 				break loop
 			}
 			a.dir = filepath.Dir(a.dir)
+			a.depth--
 		case nil:
+			// The stream ended. That is the end of the archive only between entries and
+			// with every directory closed, anything else is a truncated archive.
+			if entry != nil && (symlink != nil || device != nil) {
+				break loop
+			}
+			if entry != nil || name != "" || a.depth > 0 {
+				return nil, io.ErrUnexpectedEOF
+			}
 			return nil, nil
 
 		default:
@@ -183,6 +194,7 @@ loop:
 	// If it doesn't have a payload or is a device/symlink, it must be a directory
 	if payload == nil && device == nil && symlink == nil {
 		a.dir = path.Join(a.dir, name)
+		a.depth++
 		return NodeDirectory{
 			Name:   a.dir,
 			UID:    entry.UID,
